@@ -104,7 +104,7 @@ pub fn c04_run(ctx: &Ctx) -> i32 {
     let out = run_sharded(ctx, "C04", cases, gen::raw_grammar, c04_test);
     rep.absorb("E1-proptest", out);
     if ctx.tier == Tier::Thorough {
-        crate::fuzzrun::run_into(ctx, &mut rep, crate::fuzzrun::Campaign { target: "grammar_struct", prop: "C04", runs_total: (ctx.scale * 400000.0) as u64, max_len: 300, seeds: vec![vec![0u8; 40], (0u8..200).collect()], dict: false });
+        crate::fuzzrun::run_into(ctx, &mut rep, crate::fuzzrun::Campaign { target: "grammar_struct", prop: "C04", runs_total: (ctx.scale * 1_000_000.0) as u64, max_len: 300, seeds: vec![vec![0u8; 40], (0u8..200).collect()], dict: false });
     }
     quota_check(&mut rep, &["class:SLR(1)", "class:LALR(1)-not-SLR(1)", "class:LR(1)-not-LALR(1)", "class:not-LR(1)", "conflict-cells:shift/reduce", "conflict-cells:reduce/reduce", "conflict-cells:accept/reduce"]);
     rep.finish()
@@ -377,7 +377,7 @@ pub fn c17_run(ctx: &Ctx) -> i32 {
     let out = run_sharded(ctx, "C17", cases, gen::raw_grammar, c17_test);
     rep.absorb("E1-proptest", out);
     if ctx.tier == Tier::Thorough {
-        crate::fuzzrun::run_into(ctx, &mut rep, crate::fuzzrun::Campaign { target: "grammar_struct", prop: "C17", runs_total: (ctx.scale * 400000.0) as u64, max_len: 300, seeds: vec![vec![0u8; 40], (0u8..200).collect()], dict: false });
+        crate::fuzzrun::run_into(ctx, &mut rep, crate::fuzzrun::Campaign { target: "grammar_struct", prop: "C17", runs_total: (ctx.scale * 1_000_000.0) as u64, max_len: 300, seeds: vec![vec![0u8; 40], (0u8..200).collect()], dict: false });
     }
     quota_check(&mut rep, &["class:SLR(1)", "class:LALR(1)-not-SLR(1)", "merge:lr1-states-with-different-lookaheads-merged"]);
     rep.finish()
@@ -612,7 +612,7 @@ pub fn c11_run(ctx: &Ctx) -> i32 {
     let out = run_sharded(ctx, "C11", cases, gen::raw_grammar, c11_test);
     rep.absorb("E1-proptest", out);
     if ctx.tier == Tier::Thorough {
-        crate::fuzzrun::run_into(ctx, &mut rep, crate::fuzzrun::Campaign { target: "grammar_struct", prop: "C11", runs_total: (ctx.scale * 400000.0) as u64, max_len: 300, seeds: vec![vec![0u8; 40], (0u8..200).collect()], dict: false });
+        crate::fuzzrun::run_into(ctx, &mut rep, crate::fuzzrun::Campaign { target: "grammar_struct", prop: "C11", runs_total: (ctx.scale * 1_000_000.0) as u64, max_len: 300, seeds: vec![vec![0u8; 40], (0u8..200).collect()], dict: false });
     }
     quota_check(&mut rep, &["conflict-cells:shift/reduce", "conflict-cells:reduce/reduce", "conflict-cells:accept/reduce"]);
     rep.finish()
